@@ -127,8 +127,17 @@ def o63(ctx):
     ez = T("vec", const(0.0), const(0.0), const(1.0))
     z1, z2 = T("rotapply", sym("R1"), ez), T("rotapply", sym("R2"), ez)
     want = T("degrees", T("arccos", T("clip", T("dot", z1, z2), const(-1.0), const(1.0))))
-    v = tm.equivalent(got, want, samplers=RS, n=40, tol=1e-5, seed_tag=q)
-    ctx.count(1, {"specified": "degrees(arccos(<R1 e_z, R2 e_z>))", "equal": bool(v)})
+    # the ends of the range: equal z-axes (equal orientations, in-plane differences only) give 0, opposite z-axes 180
+    from scipy.spatial.transform import Rotation as _R
+    rng_ = np.random.default_rng(tm.SEED + 63)
+    ends = []
+    for i in range(16):
+        R1_ = rot_sampler(rng_)
+        tw = _R.from_euler("z", float(rng_.uniform(-180, 180)), degrees=True).as_matrix()
+        flip = _R.from_euler("x", 180.0, degrees=True).as_matrix()
+        ends.append({"R1": R1_, "R2": R1_ if i % 4 == 0 else R1_ @ tw if i % 2 == 0 else R1_ @ flip @ tw})
+    v = tm.equivalent(got, want, samplers=RS, n=40, tol=1e-5, seed_tag=q, extra_envs=ends)
+    ctx.count(1, {"specified": "degrees(arccos(<R1 e_z, R2 e_z>))", "equal": bool(v), "pairs with equal / opposite z-axes": len(ends)})
     if not v:
         ctx.finding(q, "returned cone angle", "the cone distance must be the angle between the two z-axis images (0..180 degrees)",
                     fn, m, witness=v.witness, extracted=tm.show(got)[:300])
